@@ -91,7 +91,10 @@ Print Assumptions C06_multi_collector_arrival_order.
    the same, the plans are the same - import lists included - and every generator that reads only the four item lists
    of a crate's data writes the same files, byte for byte, leaves the same final state (Swift's Codable decision) and
    fails at the same crate if it fails.  The order of the per-FILE import set (visitors.rs:156) acts before the
-   collector: C06_multi_file_hash_order_irrelevant below. *)
+   collector: C06_multi_file_hash_order_irrelevant below.  (Since the /repo fix of finding C14-renamed-import
+   reconcile_aliases REBUILDS the per-crate import set with the generated names, reconcile.rs:71, and used_imports
+   iterates that new HashSet in an order of its own: Props/C14.v C14_import_list_order_irrelevant - the list is a
+   function of the set - makes that order irrelevant; cs_same compares the rebuilt sets as sets.) *)
 Theorem C06_multi_hash_order_irrelevant :
   forall (lang : lang) (l1 l2 : list (str * parsed)) (ho1 ho2 : list imported -> list imported) (hc1 hc2 : crate_types -> crate_types),
     Permutation l1 l2 -> Proofs.C06Multi.all_distinct (collect l1) -> Proofs.C06Multi.ws_ambiguity (collect l1) = None ->
